@@ -194,7 +194,9 @@ def run(ctx: Ctx):
 def scan_stream(ctx, s, n, rng):
     cases = []
     for _ in range(n):
-        tree = sc.gen_tree(rng, max_depth=5)
+        # a module file next to a package of the same name (x.py + x/) in a third of the trees: the file's imports of the
+        # package's sub modules run from a node to its own child
+        tree = sc.gen_tree(rng, max_depth=5, shadow=rng.random() < 0.35)
         # a third of the scans include external libraries (also ones nested deeper than the limit): they are flattened
         # like every other module name
         xx = rng.random() < 0.65
